@@ -54,6 +54,18 @@ def _step_of_site(site) -> T.Optional[str]:
     return None
 
 
+def vcs_handle_implies_commit(ctx, root: str = "cli._update") -> bool:
+    """Every non-None assignment of the VCS handle in _update happens under cfg.commit."""
+    cfgs = ctx.cfgs
+    rcfg = cfgs.get(root)
+    rpc = PathCond(rcfg)
+    v_assigns = [n for n in rcfg.nodes if n.kind == "stmt" and isinstance(n.ast, (ast.Assign, ast.AnnAssign)) and n.id in rcfg.reachable()
+                 and any(unparse(t) == "vcs_api" for t in (n.ast.targets if isinstance(n.ast, ast.Assign) else [n.ast.target]))
+                 and n.ast.value is not None and not (isinstance(n.ast.value, ast.Constant) and n.ast.value.value is None)]
+    ctx.require(v_assigns, "cli._update: no assignment of the VCS handle found")
+    return all("cfg.commit" in rpc.reach(n.id).atoms and rpc.reach(n.id).implies(BF.var("cfg.commit")) for n in v_assigns)
+
+
 def run(ctx) -> None:
     prog, effects, cfgs = ctx.prog, ctx.effects, ctx.cfgs
     ctx.rule("R1", "step order: no path executes a later step before an earlier one")
@@ -147,14 +159,7 @@ def run(ctx) -> None:
               "cli._update: a VCS step depends on a condition outside the specification", f"extra atoms: {local}", loc="src/bumpver/vcs.py")
     # environment facts, each verified before it is assumed: (1) a VCS handle exists only when cfg.commit is set (every
     # non-None assignment of the handle in _update happens under cfg.commit); (2) dirty pattern files are dirty files
-    rfn = prog.function(root)
-    rcfg = cfgs.get(root)
-    rpc = PathCond(rcfg)
-    v_assigns = [n for n in rcfg.nodes if n.kind == "stmt" and isinstance(n.ast, (ast.Assign, ast.AnnAssign)) and n.id in rcfg.reachable()
-                 and any(unparse(t) == "vcs_api" for t in (n.ast.targets if isinstance(n.ast, ast.Assign) else [n.ast.target]))
-                 and n.ast.value is not None and not (isinstance(n.ast.value, ast.Constant) and n.ast.value.value is None)]
-    ctx.require(v_assigns, "cli._update: no assignment of the VCS handle found")
-    v_implies_c = all("cfg.commit" in rpc.reach(n.id).atoms and rpc.reach(n.id).implies(BF.var("cfg.commit")) for n in v_assigns)
+    v_implies_c = vcs_handle_implies_commit(ctx)
     if v_implies_c:
         ctx.ok("R2", "cli._update: the VCS handle is looked up only under cfg.commit (so 'VCS found' implies commit)")
         env = (~V | C) & (~DP | D)
